@@ -227,6 +227,7 @@ check('undefined module', rules('module m(input a, output r); foo i_f(.a(a), .r(
 check('blackbox ok', rules('module m(input a, output r); foo i_f(.a(a), .r(r)); assign r = a; endmodule', blackboxes=['foo']), [])
 check('unknown port', rules('module m(input a, output r); s i_s(.a(a), .zz(r)); endmodule module s(input a, output r); assign r = a; endmodule'), ['R5', 'R6'])
 check('port width', rules('module m(input [1:0] a, output r); s i_s(.a(a), .r(r)); endmodule module s(input a, output r); assign r = a; endmodule'), ['R5'])
+check('param default names itself', rules('module m(input a, output r); s #(.n(1)) i_s(.a(a), .r(r)); endmodule module s #(parameter n = n) (input a, output r); assign r = a; endmodule'), ['R7'])
 check('param no default', rules('module m #(parameter n) (input a, output r); assign r = a; endmodule'), ['R7'])
 check('zero replication inside a sized concat is legal (2005)', rules('module m(input a, output [1:0] r); assign r = { {0{a}}, a }; endmodule'), [])
 check('zero replication alone', rules('module m(input a, output [1:0] r); assign r = {0{a}}; endmodule'), ['R7'])
